@@ -14,9 +14,9 @@ EXTENDS SchedOps, TLC, Json, IOUtils
 Batch  == JsonDeserialize(IOEnv.TRACE_FILE)
 Traces == Batch.traces
 
-VARIABLES tid, l, O, active, pool, H, where, rep, rel, hist, named, namedc, errs, fin
+VARIABLES tid, l, O, active, pool, H, where, rep, rel, hist, named, namedc, compl, errs, fin
 
-vars == <<tid, l, O, active, pool, H, where, rep, rel, hist, named, namedc, errs, fin>>
+vars == <<tid, l, O, active, pool, H, where, rep, rel, hist, named, namedc, compl, errs, fin>>
 
 T       == Traces[tid]
 Ev      == T.events
@@ -52,6 +52,7 @@ Init ==
   /\ rep = [t \in Uids |-> 0] /\ rel = [t \in Uids |-> 0]
   /\ hist = [g \in Tags |-> {}]
   /\ named = {} /\ namedc = {}
+  /\ compl = {}         \* tasks for which the executor sent its unschedule message
   /\ errs = {} /\ fin = FALSE
 
 (* ---- ghost invariants over what is held (C01) -------------------------- *)
@@ -93,13 +94,13 @@ Step ==
                     \cup UNION {E(where[t] = "none", "C04.ArrivedTwice") : t \in SeqSet(e.uids)}
                     \cup E(lo = O, "C01.MapChangedSilently")
                     \cup PoolErrs(lp, where')
-               /\ UNCHANGED <<H, rep, rel, hist, named, namedc>>
+               /\ UNCHANGED <<H, rep, rel, hist, named, namedc, compl>>
           [] e.ev = "CancelReq" ->
                /\ named' = named \cup SeqSet(e.uids)
                \* requests that reached the scheduler process (not only the parent part)
                /\ namedc' = IF e.to = "child" THEN namedc \cup SeqSet(e.uids) ELSE namedc
                /\ errs' = errs \cup e0 \cup E(lo = O, "C01.MapChangedSilently")
-               /\ UNCHANGED <<H, where, rep, rel, hist>>
+               /\ UNCHANGED <<H, where, rep, rel, hist, compl>>
           [] e.ev = "QGet" ->
                \* a task waiting for its named environment goes to the pool untried
                /\ where' = [t \in Uids |-> IF e.kind = "S" /\ t \in SeqSet(e.uids) /\ where[t] = "queued"
@@ -107,7 +108,7 @@ Step ==
                                            ELSE where[t]]
                /\ errs' = errs \cup e0 \cup E(lo = O, "C01.MapChangedSilently")
                     \cup PoolErrs(lp, where')
-               /\ UNCHANGED <<H, rep, rel, hist, named, namedc>>
+               /\ UNCHANGED <<H, rep, rel, hist, named, namedc, compl>>
           [] e.ev = "Try" ->
                LET t == e.uid sh == Sh(t) hs == HistOf(hist, t) IN
                IF e.res = "grant" THEN
@@ -142,17 +143,17 @@ Step ==
                                             /\ Fits(O, Sh(u), HistOf(hist, u), FALSE, FALSE)),
                                           "C04.PriorityInversion") : u \in pool \ {t}}
                             ELSE {})
-                 /\ UNCHANGED <<rep, rel, named, namedc>>
+                 /\ UNCHANGED <<rep, rel, named, namedc, compl>>
                ELSE IF e.res = "nofit" THEN
                  /\ where' = [where EXCEPT ![t] = IF @ = "sched" THEN "nofit" ELSE @]
                  /\ errs' = errs \cup e0 \cup E(lo = O, "C01.MapChangedSilently") \cup PoolErrs(lp, where')
-                 /\ UNCHANGED <<H, rep, rel, hist, named, namedc>>
+                 /\ UNCHANGED <<H, rep, rel, hist, named, namedc, compl>>
                ELSE \* raise
                  /\ where' = [where EXCEPT ![t] = "raised"]
                  /\ errs' = errs \cup e0 \cup E(lo = O, "C01.MapChangedSilently")
                       \cup E(Oversize(sh) \/ ~FitsIdle(sh, hs) \/ e.legit, "C04.FalseFailure")
                       \cup PoolErrs(lp, where')
-                 /\ UNCHANGED <<H, rep, rel, hist, named, namedc>>
+                 /\ UNCHANGED <<H, rep, rel, hist, named, namedc, compl>>
           [] e.ev = "Adv" ->
                LET t == e.uid IN
                /\ rep' = [rep EXCEPT ![t] = @ + 1]
@@ -178,10 +179,14 @@ Step ==
                          \cup E(lo = O, "C01.MapChangedSilently")
                          \cup PoolErrs(lp, where')
                     /\ UNCHANGED H
-               /\ UNCHANGED <<rel, hist, named, namedc>>
-          [] e.ev = "QGetU" ->
+               /\ UNCHANGED <<rel, hist, named, namedc, compl>>
+          [] e.ev = "Complete" ->
+               /\ compl' = compl \cup {e.uid}
                /\ errs' = errs \cup e0 \cup E(lo = O, "C01.MapChangedSilently") \cup PoolErrs(lp, where)
                /\ UNCHANGED <<H, where, rep, rel, hist, named, namedc>>
+          [] e.ev = "QGetU" ->
+               /\ errs' = errs \cup e0 \cup E(lo = O, "C01.MapChangedSilently") \cup PoolErrs(lp, where)
+               /\ UNCHANGED <<H, where, rep, rel, hist, named, namedc, compl>>
           [] e.ev = "Release" ->
                LET t  == e.uid
                    h2 == [H EXCEPT ![t] = <<>>] IN
@@ -195,7 +200,7 @@ Step ==
                           THEN E(lo = Mark(O, H[t], "F"), "C03.NotRestored") ELSE {})
                     \cup (IF Holding(h2) = {} THEN E(lo = InitOcc, "C03.IdleNotInitial") ELSE {})
                     \cup PoolErrs(lp, where')
-               /\ UNCHANGED <<rep, hist, named, namedc>>
+               /\ UNCHANGED <<rep, hist, named, namedc, compl>>
           [] e.ev = "Sleep" ->
                LET wt == Waiting(where) IN
                /\ where' = [t \in Uids |-> IF t \in wt /\ t \in lp THEN "waiting" ELSE where[t]]
@@ -203,6 +208,8 @@ Step ==
                     \cup E(OccMatchesHeld(lo, H), "C01.OccMatchesHeld")
                     \cup E(e.active = Cardinality(Holding(H)), "C03.ActiveCountDrift")
                     \cup E(Holding(H) # {} \/ lo = InitOcc, "C03.IdleNotInitial")
+                    \* every unschedule message that was sent has been acted upon
+                    \cup (IF e.qu_empty THEN UNION {E(rel[t] >= 1, "C03.ReleaseLost") : t \in compl} ELSE {})
                     \* exactly one place: nothing lost, nothing duplicated
                     \cup UNION {E(t \in lp, "C04.LostWhileWaiting") : t \in wt}
                     \cup UNION {E(t \in wt, "C04.PoolGhost") : t \in lp}
@@ -222,17 +229,17 @@ Step ==
                                      \cup (IF Cardinality(lp) = 1 THEN {"C04.UnfitAloneNotFailed"} ELSE {})
                                 ELSE {})
                           ELSE {})
-               /\ UNCHANGED <<H, rep, rel, hist, named, namedc>>
+               /\ UNCHANGED <<H, rep, rel, hist, named, namedc, compl>>
           [] OTHER ->
                /\ errs' = errs \cup {"X.UnknownEvent"}
-               /\ UNCHANGED <<H, where, rep, rel, hist, named, namedc>>
+               /\ UNCHANGED <<H, where, rep, rel, hist, named, namedc, compl>>
   /\ UNCHANGED tid
 
 Finish ==
   /\ ~fin /\ l > Len(Ev)
   /\ fin' = TRUE
   /\ PrintT(<<"RESULT", T.tid, errs>>)
-  /\ UNCHANGED <<tid, l, O, active, pool, H, where, rep, rel, hist, named, namedc, errs>>
+  /\ UNCHANGED <<tid, l, O, active, pool, H, where, rep, rel, hist, named, namedc, compl, errs>>
 
 Next == Step \/ Finish
 Spec == Init /\ [][Next]_vars
